@@ -48,6 +48,8 @@ ASSUMPTIONS = [
     "pandas' non-round-trip text float parser causes between the text and the Parquet path); strings and row order "
     "(outside exact-tie groups) exactly",
     "short Parquet batches are not injected: the installed pyarrow's iter_batches spans row groups",
+    "a reference execution whose scores are not finite (degenerate calibration of a tiny fold, outside C11's quantifier) "
+    "makes the scenario uninformative",
     "a reference execution that raises 'No PSMs found'/'calibration' errors makes the scenario uninformative only "
     "if the perturbed execution raises the same error type (error parity is still checked)",
 ]
@@ -379,6 +381,10 @@ def run_scenario(scn, workdir):
         out.update(status="uninformative", message=f"both executions raise: {ref.error}"[:160])
         return out
     # ties in the reference make competition winners arbitrary
+    if any(not np.all(np.isfinite(sc)) for sc in ref.scores):
+        out.update(status="uninformative", message="reference scores are not finite (a fold whose lowest accepted target "
+                   "equals the decoy median: outside the calibration statement's quantifier)")
+        return out
     if competing_ties(tables, ref.scores):
         out.update(status="uninformative", message="reference scores tie exactly between competing rows")
         return out
